@@ -576,12 +576,25 @@ class MailboxWorld:
             if link.up and (c_end.alive or s_end.alive):
                 lab = "%d" % link.serial
                 if "cut" in kinds:
-                    evs.append(("cut:" + lab, lambda l=link: self._f_cut(l)))
+                    # a loss is more interesting while several client
+                    # messages are still on their way up (they are lost and
+                    # must be re-sent after the reconnect)
+                    up = len(s_end.inflight) + len(c_end.sendbuf)
+                    evs.append(("cut:" + lab, lambda l=link: self._f_cut(l),
+                                6 if up >= 2 else 1))
                 if "half_open" in kinds and c_end.made and s_end.made:
                     evs.append(("half_open_c:" + lab,
                                 lambda l=link: self._f_cut(l, ("c",))))
                     evs.append(("half_open_s:" + lab,
                                 lambda l=link: self._f_cut(l, ("s",))))
+                if "stall" in kinds and c_end.made and s_end.made:
+                    # one direction stops draining for a while (data stays in
+                    # flight; a later cut loses it)
+                    for tag, e in (("s", s_end), ("c", c_end)):
+                        if e.alive:
+                            evs.append(("%sstall_%s:%s" % (
+                                "un" if e.stalled else "", tag, lab),
+                                lambda e=e, tag=tag: self._f_stall(e, tag)))
                 if ("mbox_dup" in kinds or "mbox_reorder" in kinds):
                     msgs = [i for i, m in enumerate(c_end.inflight)
                             if _is_message(m)]
@@ -623,6 +636,42 @@ class MailboxWorld:
                                 lambda l=link: self._f_replay_stored(l)))
         return evs
 
+    def plan_uplink_loss(self, victim, t1, t2):
+        """Planned compound fault: from simulator event t1 on, the server
+        stops reading `victim`'s established connection (its messages stay in
+        flight while the downlink keeps working); at event t2 the connection
+        dies and whatever was in flight is lost. Returns a function to be
+        called after every step."""
+        st = {"phase": 0, "link": None}
+
+        def tick():
+            if st["phase"] == 0 and self.sim.steps >= t1:
+                for link in self.ws_links(victim):
+                    p = link.ends[0].protocol
+                    p = getattr(p, "_wrappedProtocol", p)
+                    if getattr(p, "opened", False) and link.ends[1].made:
+                        link.ends[1].stalled = True
+                        st["phase"], st["link"] = 1, link
+                        self.sim.note("fault.uplink_stall")
+                        self.faults_fired.append((self.sim.steps,
+                                                  "uplink_stall:%d" %
+                                                  link.serial))
+                        break
+            elif st["phase"] == 1 and self.sim.steps >= t2:
+                st["phase"] = 2
+                link = st["link"]
+                if link.up:
+                    lost = len(link.ends[1].inflight)
+                    self.sim.note("fault.uplink_loss_cut")
+                    if lost >= 2:
+                        self.sim.note("probe.cut_with_2plus_client_messages_"
+                                      "in_flight")
+                    self.faults_fired.append((self.sim.steps,
+                                              "uplink_loss_cut:%d(lost %d)" %
+                                              (link.serial, lost)))
+                    self.sim.net.cut(link)
+        return tick
+
     def _spend(self, what):
         self.fault_budget -= 1
         self.faults_fired.append((self.sim.steps, what))
@@ -631,6 +680,14 @@ class MailboxWorld:
         self._spend("cut%s:%d" % ("" if len(tell) == 2 else "_" + tell[0],
                                   link.serial))
         self.sim.net.cut(link, tell)
+
+    def _f_stall(self, end, tag):
+        if end.stalled:
+            end.stalled = False
+            self.faults_fired.append((self.sim.steps, "unstall_" + tag))
+        else:
+            self._spend("stall_%s:%d" % (tag, end.link.serial))
+            end.stalled = True
 
     def _f_reveal(self, link):
         self.faults_fired.append((self.sim.steps, "reveal:%d" % link.serial))
@@ -682,6 +739,8 @@ class MailboxWorld:
         self.port_down = False
         self.sim.net.port_mode[self.server.port] = "ok"
         for link in self.sim.net.links:
+            for e in link.ends:
+                e.stalled = False
             if not link.up:
                 self.sim.net.reveal(link)
 
